@@ -263,6 +263,7 @@ static void storeChunk(const std::vector<std::vector<std::string> >& progs, cons
 	for (size_t n = from; n < to; n++) {
 		fprintf(out, "B %zu\n", n);
 		fflush(out);
+		alarm(4);            // per program: one that hangs costs seconds, not the whole chunk's budget
 		keep.push_back(uscxml::Interpreter::fromXML(STORE_DOC, "file:///verif/store.scxml"));
 		uscxml::Interpreter& interp = keep.back();
 		for (int i = 0; i < 4; i++) interp.step(0);
